@@ -25,12 +25,22 @@ class Inconclusive(Exception):
     """The deciding monitor could not be reached."""
 
 
+_setup_done = [None]
+
+
 def setup_repo():
     """Put the repository first on sys.path and make sure stdnum comes from it."""
+    if _setup_done[0] is not None:
+        return _setup_done[0]
+    _setup_done[0] = _setup_repo()
+    return _setup_done[0]
+
+
+def _setup_repo():
     sys.dont_write_bytecode = True
     if sys.path[0] != REPO:
         sys.path.insert(0, REPO)
-    for name in [n for n in sys.modules if n == 'stdnum' or n.startswith('stdnum.')]:
+    for name in [n for n in list(sys.modules) if n == 'stdnum' or n.startswith('stdnum.')]:
         mod = sys.modules[name]
         f = getattr(mod, '__file__', '') or ''
         if not os.path.abspath(f).startswith(REPO + os.sep):
